@@ -347,7 +347,7 @@ def do_replay(pid, prop, prop_name, path, opts):
     decisions = [tuple(d) for d in rec['decisions']]
     inputs = dec_inputs(rec['inputs'])
     verdict, rec2 = confirm(_M, prop, rec['case'], decisions, inputs, 'violation', bool(getattr(prop, 'NEEDS_HOOKS', False)))
-    print('replay of %s: %s' % (path, verdict))
+    print('replay of %s: %s' % (path, 'violation reproduced' if verdict == 'confirmed' else 'not reproduced on the current tree'))
     if verdict == 'confirmed':
         print('VIOLATION property=%s replay=%s' % (pid, path))
         print('  ' + rec2['info'].get('key', '') + ' :: ' + rec2['info'].get('detail', '')[:600])
